@@ -493,10 +493,62 @@ def _route_identity(sim):
             rt = node._nic_request_manager.request_types.get(num)
             if rt is None or _next_manager(rt.func) is not nic._request_manager:
                 out.append(violation("route_leads_to_named_component", "nic-route", "%s %s: interface %s route is wrong" % (ntype, hn, num)))
+    out += _dead_owners(sim)
     seen = {}
     for v in out:
         seen.setdefault(v["signature"], v)
     return list(seen.values())
+
+
+def _dead_owners(sim):
+    """Whatever route it hangs on: no request manager reachable in the live tree may belong to software that is not installed, to
+    a file or folder the file system no longer holds (live or deleted), or to an interface its node does not have."""
+    import gc
+    from primaite.simulator.core import SimComponent
+    from primaite.simulator.file_system.file import File
+    from primaite.simulator.file_system.folder import Folder
+    from primaite.simulator.network.hardware.base import NetworkInterface
+    from primaite.simulator.system.software import Software
+    from .c11 import _next_manager
+
+    live = set()
+    for node in sim.network.nodes.values():
+        for sw in node.software_manager.software.values():
+            live.add(id(sw))
+        for nic in node.network_interface.values():
+            live.add(id(nic))
+        # deleted files and folders stay part of the file system (their routes carry the restore request and are guarded by
+        # the exists / not-deleted rules); what must not be routed is an object the file system no longer holds at all
+        fs = node.file_system
+        for fo in list(fs.folders.values()) + list(fs.deleted_folders.values()):
+            live.add(id(fo))
+            for f in list(fo.files.values()) + list(fo.deleted_files.values()):
+                live.add(id(f))
+    owner = {}
+    for o in gc.get_objects():
+        if SimComponent in type(o).__mro__:
+            rm = getattr(o, "_request_manager", None)
+            if rm is not None:
+                owner[id(rm)] = o
+    out = []
+    seen, stack = set(), [(sim._request_manager, ())]
+    while stack:
+        rm, path = stack.pop()
+        if id(rm) in seen:
+            continue
+        seen.add(id(rm))
+        o = owner.get(id(rm))
+        if isinstance(o, (Software, File, Folder, NetworkInterface)) and id(o) not in live:
+            kind = _kind(list(path))
+            out.append(violation("route_leads_to_named_component", "removed-component-still-routed:%s:%s" % (type(o).__mro__[1].__name__ if isinstance(o, Software) else type(o).__name__, kind),
+                                 "request path %r leads to the request manager of %s %r, which is not a live component of the simulation" % (
+                                     list(path), type(o).__name__, getattr(o, "name", None) or getattr(o, "port_num", None))))
+            continue
+        for key, rt in rm.request_types.items():
+            nxt = _next_manager(rt.func)
+            if nxt is not None:
+                stack.append((nxt, path + (key,)))
+    return out
 
 
 def _kind(req):
